@@ -8,7 +8,8 @@ let fname_of = function
   | "exp2" -> F_exp2 | "log1p" -> F_log1p | "asinh" -> F_asinh | "acosh" -> F_acosh | "atanh" -> F_atanh | "erf" -> F_erf
   | "erfc" -> F_erfc | "cbrt" -> F_cbrt | "round" -> F_round | "trunc" -> F_trunc | "rint" -> F_rint | "nearbyint" -> F_nearbyint
   | "uplus" -> F_uplus | "uminus" -> F_uminus | s -> failwith ("function " ^ s)
-let rint x = if Float.abs x >= 4503599627370496.0 then x else let m = if x >= 0.0 then 4503599627370496.0 else -4503599627370496.0 in (x +. m) -. m
+(* C's rint / nearbyint in the default rounding mode; the sign of a zero result is that of the argument (rint(-0.3) = -0.0) *)
+let rint x = if Float.abs x >= 4503599627370496.0 then x else let m = if x >= 0.0 then 4503599627370496.0 else -4503599627370496.0 in Float.copy_sign ((x +. m) -. m) x
 let f1 f x = match f with
   | F_log -> log x | F_log10 -> log10 x | F_sin -> sin x | F_cos -> cos x | F_tan -> tan x | F_asin -> asin x | F_acos -> acos x
   | F_atan -> atan x | F_sinh -> sinh x | F_cosh -> cosh x | F_abs -> Float.abs x | F_fabs -> Float.abs x | F_sqrt -> sqrt x
